@@ -9,6 +9,7 @@ CONSTANTS
   MaxRtx = 2
   MaxT1 = 2
   Win = 2
+  Initiators = {"A"}
   RtxBurst = 9
   Rwnd = 9
   DelaySack = FALSE
